@@ -9,6 +9,7 @@ use crate::world::{bytes_of, mk, raw_read, ATOMIC_NAMES, ATOMIC_SIZES, TYPE_NAME
 use crate::xendev::XenDev;
 use crate::{with_atomic_type, with_type};
 use std::sync::atomic::Ordering;
+use vm_memory::bitmap::AtomicBitmap;
 use vm_memory::{Bytes, FileOffset, GuestAddress, GuestMemoryRegion, GuestRegionMmap, MemoryRegionAddress, MmapRange, MmapRegion, MmapXenFlags, VolatileMemory};
 
 #[derive(Clone, Copy, Debug, PartialEq, Eq)]
@@ -23,7 +24,8 @@ pub struct XWorld {
     pub kind: Kind,
     pub base: u64,
     pub size: usize,
-    pub region: GuestRegionMmap<()>,
+    /// tracked with the bitmap `from_range` builds (host page granularity)
+    pub region: GuestRegionMmap<AtomicBitmap>,
     pub model: Vec<u8>,
 }
 
@@ -40,7 +42,7 @@ pub fn xen_flags(kind: Kind) -> u32 {
     }
 }
 
-pub fn build_region(kind: Kind, base: u64, size: usize) -> Result<GuestRegionMmap<()>, String> {
+pub fn build_region(kind: Kind, base: u64, size: usize) -> Result<GuestRegionMmap<AtomicBitmap>, String> {
     let file = match kind {
         Kind::Unix => None,
         _ => Some(FileOffset::new(cx().sys.xen.as_mut().unwrap().handle(), 0)),
@@ -49,7 +51,7 @@ pub fn build_region(kind: Kind, base: u64, size: usize) -> Result<GuestRegionMma
         Kind::Unix => MmapRange::new_unix(size, None, GuestAddress(base)),
         _ => MmapRange::new(size, file, GuestAddress(base), xen_flags(kind), 7),
     };
-    let r = MmapRegion::<()>::from_range(range).map_err(|e| format!("{:?}", e))?;
+    let r = MmapRegion::<AtomicBitmap>::from_range(range).map_err(|e| format!("{:?}", e))?;
     GuestRegionMmap::new(r, GuestAddress(base)).map_err(|e| format!("{:?}", e))
 }
 
@@ -83,6 +85,13 @@ impl XWorld {
         XWorld { kind, base, size, region, model }
     }
 
+    /// pages the region's bitmap reports dirty
+    pub fn dirty_pages(&self) -> std::collections::BTreeSet<usize> {
+        use vm_memory::GuestMemoryRegion;
+        let b = self.region.bitmap();
+        in_mode(Mode::Oracle, || (0..b.len() + 1).filter(|&i| b.is_bit_set(i)).collect())
+    }
+
     /// guest bytes as the hypervisor side sees them (independent of the library)
     pub fn backing(&self) -> Vec<u8> {
         match self.kind {
@@ -114,6 +123,7 @@ impl Scenario for Xen {
 
     fn run(&self) -> RunInfo {
         cx().mode = Mode::Setup;
+        cx().cfg.anon_atomics = true;
         let kind = [Kind::GrantOnDemand, Kind::GrantOnDemand, Kind::GrantAdvance, Kind::Foreign, Kind::Unix][cx().a(5) as usize];
         let mut w = XWorld::new(kind);
         let nops = 1 + cx().a(10) as usize;
@@ -137,6 +147,7 @@ impl Scenario for Xen {
                 }
             }
             cx().sys.mmu_faults.clear();
+            let (dirty_before, bytes_before) = (w.dirty_pages(), w.backing());
             cx().mode = Mode::Actor;
             cx().op_begin(step as u64);
             let (desc, kname, outcome) = one_op(&mut w);
@@ -184,6 +195,25 @@ impl Scenario for Xen {
                     cx().violate("C12", if a.contains("second munmap") { "C12/double-unmap" } else if a.contains("length") { "C12/wrong-length" } else { "C12/foreign-munmap" }, format!("{:?} region: {}", kind, a.split(" #").next().unwrap_or("")), format!("{}: {}", line, a));
                 }
             }
+            // dirty tracking on Xen regions: every changed byte is reported (C05); an access that failed
+            // before it wrote anything - e.g. because its temporary mapping could not be made - marks nothing (C16)
+            {
+                let (dirty_after, bytes_after) = (w.dirty_pages(), w.backing());
+                let changed: std::collections::BTreeSet<usize> = (0..w.size).filter(|&i| bytes_after[i] != bytes_before[i]).map(|i| i / 4096).collect();
+                if let Some(p) = changed.iter().find(|p| !dirty_after.contains(p)) {
+                    cx().violate("C05", "C05/unmarked-write", format!("{:?} {} left a changed byte clean", kind, kname), format!("{}: a byte of page {} changed but the region's bitmap reports the page clean", line, p));
+                }
+                if changed.is_empty() && outcome.is_err() && dirty_after != dirty_before {
+                    cx().violate("C16", "C16/extra-mark", format!("{:?} {} marked although it wrote nothing", kind, kname), format!("{}: the access failed without changing a guest byte, but pages {:?} became dirty", line, dirty_after.difference(&dirty_before).collect::<Vec<_>>()));
+                }
+                if dirty_after != dirty_before {
+                    // harvested now and then, like a migration thread would
+                    if cx().a(4) == 0 {
+                        use vm_memory::GuestMemoryRegion;
+                        in_mode(Mode::Setup, || w.region.bitmap().reset());
+                    }
+                }
+            }
             // data: the guest's memory is what the model says
             if !inject && outcome.is_ok() && w.backing() != w.model {
                 let b = w.backing();
@@ -197,12 +227,46 @@ impl Scenario for Xen {
         }
         // region drop releases the advance mapping exactly once
         let kind_s = format!("{:?}", kind);
+        // a pointer guard has no lifetime: now and then one is still held when the region (the whole
+        // memory object) goes away, and is released afterwards; its temporary mapping must survive
+        // until then and be released then
+        let held = if kind == Kind::GrantOnDemand && cx().violations.is_empty() && cx().a(3) == 0 {
+            let off = gen_off(w.size).min(w.size - 1);
+            let n = 1 + cx().a((w.size - off).min(5000) as u32) as usize;
+            cx().mode = Mode::Actor;
+            let g = catch(|| w.region.get_slice(MemoryRegionAddress(off as u64), n).map(|s| s.ptr_guard()));
+            cx().mode = Mode::Setup;
+            match g {
+                OpOutcome::Ok(Ok(g)) => {
+                    log.push(format!("hold the pointer guard of get_slice({}, {}) across the drop of the region", off, n));
+                    cx().count("probe.pointer_guard_outlives_its_region");
+                    Some((g, off, n))
+                }
+                _ => None,
+            }
+        } else {
+            None
+        };
         let XWorld { region, .. } = w;
         cx().mode = Mode::Actor;
         let r = catch(|| drop(region));
         cx().mode = Mode::Setup;
         if let OpOutcome::Panic(m) = r {
             cx().violate("C17", "C17/panic", format!("panic dropping a {} region", kind_s), m);
+        }
+        if let Some((g, off, n)) = held {
+            // the guard still covers its bytes
+            if cx().violations.is_empty() {
+                if let Some(why) = cx().sys.mmu_violation(g.as_ptr() as usize, n) {
+                    cx().violate("C17", "C17/mmu", format!("pointer guard outliving its region {:?}", kind), format!("the pointer guard of get_slice({}, {}) is still held after the region was dropped, but its bytes are not mapped: {}", off, n, why));
+                }
+            }
+            cx().mode = Mode::Actor;
+            let r = catch(move || drop(g));
+            cx().mode = Mode::Setup;
+            if let OpOutcome::Panic(m) = r {
+                cx().violate("C17", "C17/panic", format!("panic releasing a pointer guard after its {} region", kind_s), m);
+            }
         }
         if cx().violations.is_empty() {
             let dev = cx().sys.xen.as_ref().unwrap();
